@@ -159,7 +159,12 @@ func (w *world) do(conn int, req *refcodec.Msg) (*stepResult, *fail) {
 	calls := w.fs.LogSince(before)
 	w.steps = append(w.steps, stepRec{conn, req, rep.String()})
 	if w.panicked {
-		// after a backend panic only liveness is asserted
+		// After a backend panic liveness is asserted - and that the damage does
+		// not spread: the backend panics once, so a later request answered with
+		// EFAULT means the server itself panicked while serving it.
+		if rep.Type == refcodec.Rlerror && rep.U("ecode") == 14 {
+			return nil, failf("efault-after-panic:"+refcodec.Name(req.Type), "%s was answered EFAULT although the backend did not panic during it: an earlier backend panic (in %s) left the server in a state in which it panics itself; history: %s", req, w.faultCall.String(), w.history())
+		}
 		return &stepResult{rep: rep, exp: exp, verdict: refmodel.Verdict{OK: true, Open: true}, calls: calls}, nil
 	}
 	if fc := w.fs.Fired(); fc != nil && !w.faultSeen {
